@@ -6,6 +6,7 @@ decoder (model/formats.py) and must yield exactly the assembled bits padded to t
 with correct addresses, counts and checksums.
 """
 import lib
+import runner
 from model import formats as F
 
 SPEC = {
@@ -20,13 +21,13 @@ SPEC = {
                    "format as implemented can express (DESIGN section 8)."),
     "design_ref": "DESIGN.md section 5, C11",
     "budget_s": {"quick": 50, "thorough": 600},
-    "needs": ["probe-rel"],
+    "needs": ["probe-rel", "cli-rel"],
     "needs_thorough": ["probe-rel", "probe-chk"],
     "rule": ("single-block jobs: one per output length L in 0..4096 (x contents), built from #d8 bytes plus one #dK tail; "
              "multi-block jobs: 2-5 blocks separated by byte-aligned gaps or placed in banks; every job formatted in 17 "
              "format spellings; non-trivial = (length, content kind) pair whose formats were all decoded, with L > 0; "
              "distinct = distinct (layout, content)"),
-    "monitors": ["decode-equals-bits", "intelhex-records", "multi-block"],
+    "monitors": ["decode-equals-bits", "intelhex-records", "multi-block", "real-binary-files"],
     "min_nontrivial": {"quick": 3000, "thorough": 10000},
     "assumptions": ["decoders are trusted"],
 }
@@ -151,6 +152,47 @@ def judge(ctx, job, rec, want_bits, tag):
     return good
 
 
+STALE = b"\xa5stale" * 4096
+
+
+def real_cli_round(ctx, job, rec, rng):
+    """The same program through the real binary: 4 formats written with `-o` over files that already exist with longer
+    stale content, and once more into fresh names; the bytes on disk must equal the library's format output."""
+    if not lib.ok(rec):
+        return
+    fmts = rng.sample(F.FORMATS, 4)
+    files = {f[0]: (f[1] if isinstance(f[1], str) else bytes.fromhex(f[1]["h"])) for f in job["files"]}
+    argv = ["main.asm", "-q"]
+    want = {}
+    for k, fmt in enumerate(fmts):
+        name = "out%d.%s" % (k, "dat" if k % 2 else "txt")
+        if k > 0:
+            argv.append("--")
+        argv += ["-f", fmt, "-o", name]
+        d = rec["formats"].get(fmt) or {}
+        want[name] = bytes.fromhex(d["h"]) if "h" in d else d.get("t", "").encode("utf8")
+        if k < 3:
+            files[name] = STALE          # the last group writes into a fresh name
+    res = runner.run_cli(ctx.cli("rel"), argv, files, cpu_s=10)
+    ctx.evaluated()
+    ctx.monitor("real-binary-files")
+    pjob = {"mode": "process", "argv": ["customasm"] + argv, "files": job["files"], "stale_outputs": sorted(want)[:3]}
+    if res["status"] != 0:
+        ctx.violation("real-binary", {"kind": "binary-fails-where-library-succeeds"}, pjob, "exit 0", {"status": res["status"], "err": res["stderr"][-300:]})
+        return
+    for name, data in want.items():
+        got = res["created"].get(name)
+        if got != data:
+            fmt = fmts[int(name[3])]
+            ctx.violation("real-binary", {"kind": "file-differs-from-format-output", "format": fmt.split(",")[0],
+                                          "longer": got is not None and len(got) > len(data), "over_existing_file": name != "out3.dat"},
+                          pjob, {"file": name, "len": len(data), "head": data[:60].hex()},
+                          {"len": None if got is None else len(got), "head": None if got is None else got[:60].hex(),
+                           "tail": None if got is None else got[-30:].hex()})
+            return
+    ctx.count("real-binary-ok")
+
+
 def single_block_job(bits):
     src = "\n".join(data_lines(bits)) + "\n"
     return lib.asm_job({"main.asm": src}, want=["spans"], formats=F.FORMATS)
@@ -228,6 +270,8 @@ def shard(ctx):
             if L > 0:
                 ctx.nontrivial_case(("single", L, kind).__repr__().encode())
             ctx.count("length-ok:%s" % kind)
+            if L % 16 == 3 or L < 24:
+                real_cli_round(ctx, job, rec, rng)
             if L in (129, 1000):
                 ctx.sample({"length_bits": L, "content": kind, "formats_decoded": len(F.FORMATS),
                             "hexdump": (rec["formats"]["hexdump"].get("t") or "")[:400]}, limit=1)
@@ -252,6 +296,8 @@ def shard(ctx):
             if judge(ctx, job, rec, bits, "multi"):
                 ctx.nontrivial_case(src.encode())
                 ctx.count("multi-block-ok")
+                if n_multi % 4 == 0:
+                    real_cli_round(ctx, job, rec, rng)
         else:
             # a generated layout may legitimately be rejected (bank overflow); not judged
             ctx.count("multi-block-rejected")
